@@ -33,9 +33,31 @@ def main():
                 if not ok:
                     failures.append(f'{p}: {blog[-1500:]}')
     print(f'setup: {len(srcs)} Coq files, {len(props)} model runners, {time.time() - t0:.0f}s')
+    # a failure only counts when it concerns a property claimed in MANIFEST.json (or Base);
+    # work in progress for an unclaimed property must not break the claimed checks
+    import json
+    try:
+        claimed = {c['property_id'] for c in json.load(open(os.path.join(common.VERIF, 'MANIFEST.json')))['checks']}
+    except Exception:
+        claimed = set()
+    fatal = []
     for f in failures:
-        print('SETUP-FAILURE', f)
-    return 1 if failures else 0
+        hit = [p for p in claimed if (p + '/') in f or f.startswith(p + ':')] or (['Base'] if 'Base/' in f else [])
+        unclaimed_only = not hit and any((d + '/') in f for d in props if d not in claimed)
+        print('SETUP-FAILURE' if not unclaimed_only else 'SETUP-WARNING (unclaimed property)', f[:3000])
+        if not unclaimed_only:
+            fatal.append(f)
+    # every claimed property must have its .vo files and runner
+    for pid in sorted(claimed):
+        d = os.path.join(common.COQ, pid)
+        if not os.path.isdir(d):
+            fatal.append(f'{pid}: no coq directory')
+            continue
+        for v in common.prop_vfiles(pid):
+            if v != 'Extract.v' and not os.path.exists(os.path.join(d, v + 'o')):
+                fatal.append(f'{pid}/{v} not compiled')
+                print('SETUP-FAILURE', f'{pid}/{v} not compiled')
+    return 1 if fatal else 0
 
 
 if __name__ == '__main__':
